@@ -90,6 +90,7 @@ func init() {
 		symPkg + ".Yield":          func(fr *frame, args []value) value { fr.i.yield(fr); return nil },
 		symPkg + ".Clock":          symClock,
 		symPkg + ".Instant":        symInstant,
+		symPkg + ".ClockFine":      symClockFine,
 		symPkg + ".Fail":           symFail,
 		symPkg + ".Thorough":       func(fr *frame, args []value) value { return fr.i.cfg.Tier == "thorough" },
 		symPkg + ".Bound":          symBound,
@@ -219,6 +220,7 @@ func init() {
 		"time.runtimeNano":       constFn(int64(1)),
 		"time.Since":             timeSince,
 		"(time.Time).Sub":        timeSub,
+		"(time.Time).Add":        timeAdd,
 		"(time.Time).Format":     timeOpaqueText,
 		"(time.Time).String":     timeOpaqueText,
 		"time.Until":             timeUntil,
@@ -367,6 +369,14 @@ func durFloat(unit int64) intrinsic {
 			if t.Op == term.OpMul {
 				for k := 0; k < 2; k++ {
 					c, x := t.Args[k], t.Args[1-k]
+					if c.IsConst() && int64(c.Val) > 0 && int64(c.Val) < unit && unit%int64(c.Val) == 0 {
+						// (x*c)/unit == x/(unit/c), same side condition
+						lim := uint64((int64(1) << 62) / int64(c.Val))
+						inRange := in.ts.And(in.ts.Bin(term.OpSLe, in.ts.Const(64, -lim), x), in.ts.Bin(term.OpSLe, x, in.ts.Const(64, lim)))
+						if in.provable(inRange) {
+							return symFloat{num: x, div: unit / int64(c.Val)}
+						}
+					}
 					if c.IsConst() && int64(c.Val) > 0 && int64(c.Val)%unit == 0 {
 						lim := uint64((int64(1) << 62) / int64(c.Val))
 						inRange := in.ts.And(in.ts.Bin(term.OpSLe, in.ts.Const(64, -lim), x), in.ts.Bin(term.OpSLe, x, in.ts.Const(64, lim)))
@@ -392,9 +402,9 @@ func timeSub(fr *frame, args []value) value {
 	if !hasSym(t) && !hasSym(u) {
 		return in.interpretBody(fr, args)
 	}
-	tw, ok1 := t[0].(uint64)
-	uw, ok2 := u[0].(uint64)
-	if !ok1 || !ok2 || tw != 0 || uw != 0 {
+	ht, ok1 := in.halfOf(t[0])
+	hu, ok2 := in.halfOf(u[0])
+	if !ok1 || !ok2 {
 		return in.interpretBody(fr, args)
 	}
 	diff := in.ts.Bin(term.OpSub, in.val64(t[1]), in.val64(u[1]))
@@ -403,7 +413,56 @@ func timeSub(fr *frame, args []value) value {
 	if !in.provable(inRange) {
 		return in.interpretBody(fr, args)
 	}
-	return in.fromTerm(in.ts.Bin(term.OpMul, diff, in.ts.Const(64, 1_000_000_000)), types.Int64)
+	if ht == nil && hu == nil {
+		return in.fromTerm(in.ts.Bin(term.OpMul, diff, in.ts.Const(64, 1_000_000_000)), types.Int64)
+	}
+	// half seconds: (2*diff + ht - hu) * 5e8
+	zero := in.ts.Const(64, 0)
+	if ht == nil {
+		ht = zero
+	}
+	if hu == nil {
+		hu = zero
+	}
+	halves := in.ts.Bin(term.OpAdd, in.ts.Bin(term.OpMul, diff, in.ts.Const(64, 2)), in.ts.Bin(term.OpSub, ht, hu))
+	return in.fromTerm(in.ts.Bin(term.OpMul, halves, in.ts.Const(64, 500_000_000)), types.Int64)
+}
+
+// halfOf recognises the wall word of an instant without monotonic reading whose
+// sub-second part is zero (nil, true) or an arbitrary half second as produced
+// by sym.ClockFine (a 64-bit 0/1 term, true).
+func (in *Interp) halfOf(wall value) (*term.Term, bool) {
+	switch w := wall.(type) {
+	case uint64:
+		switch w {
+		case 0:
+			return nil, true
+		case 500_000_000:
+			return in.ts.Const(64, 1), true
+		}
+	case *Sym:
+		if w.T.Op == term.OpIte && w.T.Args[1].IsConst() && w.T.Args[2].IsConst() && w.T.Args[1].Val == 500_000_000 && w.T.Args[2].Val == 0 {
+			return in.ts.Ite(w.T.Args[0], in.ts.Const(64, 1), in.ts.Const(64, 0)), true
+		}
+	}
+	return nil, false
+}
+
+// timeAdd models t.Add(d) for a symbolic instant without monotonic reading and
+// a concrete whole number of seconds: the sub-second part is unchanged and the
+// seconds move by d (the instants of sym.Clock are far from saturation).
+func timeAdd(fr *frame, args []value) value {
+	in := fr.i
+	t := args[0].(structure)
+	d, ok := args[1].(int64)
+	if !ok || !hasSym(t) || d%1_000_000_000 != 0 || d > 1<<50 || d < -(1<<50) {
+		return in.interpretBody(fr, args)
+	}
+	if _, ok := in.halfOf(t[0]); !ok {
+		return in.interpretBody(fr, args)
+	}
+	sec := in.ts.Bin(term.OpAdd, in.val64(t[1]), in.ts.Const(64, uint64(d/1_000_000_000)))
+	return structure{t[0], in.fromTerm(sec, types.Int64), t[2]}
 }
 
 func concreteBytes(v value) []byte {
@@ -978,7 +1037,38 @@ func timeNow(fr *frame, args []value) value {
 	if in.clockLast == nil {
 		return symClock(fr, args)
 	}
-	return in.mkTime(in.clockLast)
+	return in.mkTimeHalf(in.clockLast, in.clockHalf)
+}
+
+// mkTimeHalf: sec plus an optional half second (h is an 8-bit 0/1 term).
+func (in *Interp) mkTimeHalf(sec, h *term.Term) value {
+	t := in.mkTime(sec).(structure)
+	if h != nil {
+		ns := in.ts.Ite(in.ts.Eq(h, in.ts.Const(8, 1)), in.ts.Const(64, 500000000), in.ts.Const(64, 0))
+		t[0] = in.fromTerm(ns, types.Uint64)
+	}
+	return t
+}
+
+// symClockFine is sym.ClockFine: like Clock, but the instant also carries an
+// arbitrary half second, so that code that truncates instants to whole seconds
+// can be told from code that compares them exactly.
+func symClockFine(fr *frame, args []value) value {
+	in := fr.i
+	v := in.freshVar("clock", 64, "clock")
+	h := in.freshVar("clockhalf", 8, "choice")
+	in.assume(in.ts.Bin(term.OpULe, h, in.ts.Const(8, 1)))
+	in.assume(in.ts.And(in.ts.Bin(term.OpULe, in.ts.Const(64, 63900000000), v), in.ts.Bin(term.OpULe, v, in.ts.Const(64, 64900000000))))
+	if in.clockLast != nil {
+		later := in.ts.Bin(term.OpULt, in.clockLast, v)
+		same := in.ts.Eq(in.clockLast, v)
+		if in.clockHalf != nil {
+			same = in.ts.And(same, in.ts.Bin(term.OpULe, in.clockHalf, h))
+		}
+		in.assume(in.ts.Or(later, same))
+	}
+	in.clockLast, in.clockHalf = v, h
+	return in.mkTimeHalf(v, h)
 }
 
 func symClock(fr *frame, args []value) value {
@@ -989,7 +1079,11 @@ func symClock(fr *frame, args []value) value {
 		lo = in.clockLast
 	}
 	in.assume(in.ts.And(in.ts.Bin(term.OpULe, lo, v), in.ts.Bin(term.OpULe, v, in.ts.Const(64, 64900000000))))
-	in.clockLast = v
+	if in.clockHalf != nil {
+		// a whole-second reading after a fine one must not go back in time
+		in.assume(in.ts.Or(in.ts.Bin(term.OpULt, in.clockLast, v), in.ts.Eq(in.clockHalf, in.ts.Const(8, 0))))
+	}
+	in.clockLast, in.clockHalf = v, nil
 	return in.mkTime(v)
 }
 
